@@ -8,6 +8,7 @@ package openapiv3
 // a length bound lands on the keyword that applies to the kind of value. Everything before the tail (type
 // dispatch, references, examples) is not specified here; user types return a reference early.
 //@ func (*schemafier).schemafy
+//@   params sf attr noref
 //@   property C14
 //@   requires sf != nil
 //   -- the helpers called before the tail (examples, extensions, hashing, naming) do not modify the attribute being documented
